@@ -23,6 +23,10 @@ for rf in sys.argv[3:]:
         m = re.match(r"(CAUGHT|MISSED|INFRA-ERROR) (\S+) \((C\d+), (\w+)\)", line)
         if m:
             res[m.group(2)] = (m.group(1), m.group(3), m.group(4))
+        m = re.match(r"INFRA-ERROR (\S+) rc=(\d+)", line)
+        if m:
+            prop = json.loads((pathlib.Path(m.group(1)) / "meta.json").read_text())["property"]
+            res[m.group(1)] = (f"INFRA-ERROR (exit {m.group(2)}: harness crashed)", prop, "quick")
     for cand, (ap, a, b, suite) in sorted(conf.items()):
         if cand not in res:
             print("no verdict for", cand); continue
